@@ -220,7 +220,7 @@ class Pdur(FilterPattern):  # Was Pfindur.
         try:
             while True:
                 inevent = stream.next(inevent)
-                delta = inevent('delta')
+                delta = evt.event(inevent)('delta')  # as_event (as Ppar).
                 next_elapsed = elapsed + float(delta)
                 if bi.roundup(next_elapsed, tolerance) >= local_dur:
                     remaining = local_dur - elapsed
